@@ -1,0 +1,75 @@
+//go:build verif
+
+package tbs
+
+// Contracts checked by /verif (vcgo). Comment-only: no executable code.
+// C11: each rule appends exactly the finding the statement describes, for the file it is given.
+
+//@ spec Finding(r TestBadSmell, file string, ty string, line int) bool := r.FileName == file && r.Type == ty && r.Line == line
+
+//@ func checkIgnoreTest
+//@ requires results != nil && testType != nil
+//@ modifies *results, *testType
+//@ ensures annotation.Name == "Ignore" ==> Extends(*results, old(*results), 1) && Finding((*results)[len(old(*results))], clzPath, "IgnoreTest", 0)
+//@ ensures annotation.Name != "Ignore" ==> *results == old(*results)
+
+// EmptyTest: the statement says "if its body makes no call"
+//@ func checkEmptyTest
+//@ requires results != nil && testType != nil
+//@ modifies *results, *testType
+//@ ensures annotation.Name == "Test" && len(method.FunctionCalls) == 0 ==> Extends(*results, old(*results), 1) && Finding((*results)[len(old(*results))], path, "EmptyTest", method.Position.StartLine)
+//@ ensures !(annotation.Name == "Test" && len(method.FunctionCalls) == 0) ==> *results == old(*results)
+
+//@ func checkRedundantPrintTest
+//@ requires results != nil && testType != nil
+//@ modifies *results, *testType
+//@ ensures (mCall.NodeName == "System.out" && (mCall.FunctionName == "println" || mCall.FunctionName == "printf" || mCall.FunctionName == "print")) ==>
+//@    Extends(*results, old(*results), 1) && Finding((*results)[len(old(*results))], path, "RedundantPrintTest", mCall.Position.StartLine)
+//@ ensures !(mCall.NodeName == "System.out" && (mCall.FunctionName == "println" || mCall.FunctionName == "printf" || mCall.FunctionName == "print")) ==> *results == old(*results)
+
+//@ func checkSleepyTest
+//@ requires results != nil && testType != nil
+//@ modifies *results, *testType
+//@ ensures (call.FunctionName == "sleep" && call.NodeName == "Thread") ==> Extends(*results, old(*results), 1) && Finding((*results)[len(old(*results))], path, "SleepyTest", call.Position.StartLine)
+//@ ensures !(call.FunctionName == "sleep" && call.NodeName == "Thread") ==> *results == old(*results)
+
+//@ func checkRedundantAssertionTest
+//@ requires results != nil && testType != nil
+//@ modifies *results, *testType
+//@ ensures (len(call.Parameters) == 2 && call.Parameters[0].TypeValue == call.Parameters[1].TypeValue) ==>
+//@    Extends(*results, old(*results), 1) && (*results)[len(old(*results))].FileName == path && (*results)[len(old(*results))].Type == "RedundantAssertionTest"
+//@ ensures !(len(call.Parameters) == 2 && call.Parameters[0].TypeValue == call.Parameters[1].TypeValue) ==> *results == old(*results)
+
+//@ func checkAssert
+//@ requires results != nil && testType != nil
+//@ modifies *results, *testType
+//@ ensures !hasAssert ==> Extends(*results, old(*results), 1) && Finding((*results)[len(old(*results))], filePath, "UnknownTest", method.Position.StartLine)
+//@ ensures hasAssert ==> *results == old(*results)
+
+// DuplicateAssertTest: one assertion method is called at least 5 times
+//@ spec DupKey(m map[string][]core_domain.CodeCall, k string) bool := (k in m) && len(m[k]) >= 5 && IsAssertName(m[k][len(m[k]) - 1].FunctionName)
+
+//@ func checkDuplicateAssertTest
+//@ requires results != nil && testType != nil
+//@ modifies *results, *testType
+//@ ensures (exists k string :: DupKey(methodCallMap, k)) ==> Extends(*results, old(*results), 1) && Finding((*results)[len(old(*results))], clz.FilePath, "DuplicateAssertTest", method.Position.StartLine)
+//@ ensures !(exists k string :: DupKey(methodCallMap, k)) ==> *results == old(*results)
+//@ loop 1 invariant isDuplicateAssert <==> (exists k string :: Visited(k) && DupKey(methodCallMap, k))
+//@ loop 1 invariant *results == old(*results)
+
+//@ func updateMethodCallsForSelfCall
+//@ ensures len(result) >= len(method.FunctionCalls)
+//@ ensures forall i int :: {result[i]} 0 <= i && i < len(method.FunctionCalls) ==> result[i] == method.FunctionCalls[i]
+//@ loop 1 invariant len(currentMethodCalls) >= len(method.FunctionCalls)
+//@ loop 1 invariant forall i int :: {currentMethodCalls[i]} 0 <= i && i < len(method.FunctionCalls) ==> currentMethodCalls[i] == method.FunctionCalls[i]
+
+// every finding names the file of the class it was found in
+//@ spec rec InFiles(ds []core_domain.CodeDataStruct, n int, f string) bool := n <= 0 ? false : (InFiles(ds, n - 1, f) || ds[n - 1].FilePath == f)
+
+//@ func TbsApp.AnalysisPath
+//@ ensures forall k int :: {result[k]} 0 <= k && k < len(result) ==> InFiles(deps, len(deps), result[k].FileName)
+//@ loop 1 invariant forall k int :: {results[k]} 0 <= k && k < len(results) ==> InFiles(deps, #i, results[k].FileName)
+//@ loop 2 invariant forall k int :: {results[k]} 0 <= k && k < len(results) ==> (InFiles(deps, #i1, results[k].FileName) || results[k].FileName == clz.FilePath)
+//@ loop 3 invariant forall k int :: {results[k]} 0 <= k && k < len(results) ==> (InFiles(deps, #i1, results[k].FileName) || results[k].FileName == clz.FilePath)
+//@ loop 4 invariant forall k int :: {results[k]} 0 <= k && k < len(results) ==> (InFiles(deps, #i1, results[k].FileName) || results[k].FileName == clz.FilePath)
+//@ loop 4 invariant methodCallMap != nil
